@@ -116,6 +116,8 @@ def run(tier):
                      "scale": int(e["cscale"]) if e["cscale"] is not None else -1, "rows": e["rows"], "cols": e["cols"]}
                 if "dlo" in e:
                     x["dlo"], x["dhi"] = int(round(e["dlo"])), int(round(e["dhi"]))
+                if "blo" in e and float(e["blo"]).is_integer() and float(e["bhi"]).is_integer():
+                    x["blo"], x["bhi"] = int(e["blo"]), int(e["bhi"])
                 evs.append(x)
         final_ok = outl is not None and outl["disparity_map"].shape == (rows, cols) and \
             (("disparity_map" not in outr.data_vars) or outr["disparity_map"].shape == (rows, cols))
